@@ -55,6 +55,13 @@ class Container:
             return "#[derive(derive_more::%s)] pub enum T { %s V%s, #[%s(\"w\")] W }" % (derive, attr_text, fields, ATTR[derive])
         return "#[derive(derive_more::%s)] %s pub struct T%s%s" % (derive, attr_text, fields, "" if self.named else ";")
 
+    def bind_refs(self):
+        """binds f0, f1 as references to the value's own fields (what an argument expression sees)"""
+        if self.enum:
+            pat = ("T::V { %s }" % ", ".join("%s: f%d" % (a, i) for i, a in enumerate(self.names))) if self.named else "T::V(%s)" % ", ".join("f%d" % i for i in range(self.n))
+            return "let (%s,) = match &t { %s => (%s,), _ => unreachable!() };" % (", ".join("f%d" % i for i in range(self.n)), pat, ", ".join("f%d" % i for i in range(self.n)))
+        return " ".join("let f%d = &t.%s;" % (i, a if self.named else str(i)) for i, a in enumerate(self.names))
+
     def ctor(self, vals):
         path = "T::V" if self.enum else "T"
         if self.named:
@@ -76,8 +83,9 @@ def gen_cases(thorough):
         loops_close = "}" * c.n
         ctor = c.ctor(["v%d" % i for i in range(c.n)])
         if expect == "pass":
-            body = '%s let t = %s; r.eq(%s, grid_%s(&t), grid_%s(&(%s))); %s' % (
-                loops_open, ctor, lit_rs("flags must apply to the argument under " + ptrait), derive.lower(), ptrait.lower(), arg_expr, loops_close)
+            binds = c.bind_refs()
+            body = '%s let t = %s; %s r.eq(%s, grid_%s(&t), grid_%s(&(%s))); %s' % (
+                loops_open, ctor, binds, lit_rs("flags must apply to the argument under " + ptrait), derive.lower(), ptrait.lower(), arg_expr, loops_close)
         elif expect == "inert":
             body = '%s let t = %s; let plain = format!("{:%s}", t); r.eq(%s, grid_%s(&t), vec![plain; NSPECS]); %s' % (
                 loops_open, ctor, LETTER[derive], lit_rs("caller's flags must leave the output unchanged"), derive.lower(), loops_close)
@@ -94,18 +102,18 @@ def gen_cases(thorough):
             last = c.names[-1]
             # (a) no attribute on a single-field type: Display-like only
             if c.n == 1 and derive != "Debug":
-                add(derive, cont, None, "pass", "v0", derive, "implicit single field")
+                add(derive, cont, None, "pass", "*f0", derive, "implicit single field")
             for letter, ptrait in BY_LETTER.items():
                 if not thorough and ptrait not in ("Display", "Debug", "LowerHex", "Pointer", derive):
                     continue
                 sp = (":" + letter) if letter else ""
                 # field by name, no arguments
-                add(derive, cont, lit_rs("{%s%s}" % (last, sp)), "pass", "v%d" % (c.n - 1), ptrait, "bare, field by name")
+                add(derive, cont, lit_rs("{%s%s}" % (last, sp)), "pass", "*f%d" % (c.n - 1), ptrait, "bare, field by name")
                 # one positional argument (implicit and explicit index 0)
-                add(derive, cont, lit_rs("{%s}" % sp) + ", " + last, "pass", "v%d" % (c.n - 1), ptrait, "bare, implicit index, one argument")
-                add(derive, cont, lit_rs("{0%s}" % sp) + ", " + f0, "pass", "v0", ptrait, "bare, index 0, one argument")
+                add(derive, cont, lit_rs("{%s}" % sp) + ", " + last, "pass", "f%d" % (c.n - 1), ptrait, "bare, implicit index, one argument")
+                add(derive, cont, lit_rs("{0%s}" % sp) + ", " + f0, "pass", "f0", ptrait, "bare, index 0, one argument")
                 # one named argument, matching name
-                add(derive, cont, lit_rs("{a%s}" % sp) + ", a = " + last, "pass", "v%d" % (c.n - 1), ptrait, "bare, matching alias")
+                add(derive, cont, lit_rs("{a%s}" % sp) + ", a = " + last, "pass", "f%d" % (c.n - 1), ptrait, "bare, matching alias")
                 if ptrait != "Pointer":
                     # expression argument
                     add(derive, cont, lit_rs("{%s}" % sp) + ", %s.wrapping_add(1)" % f0, "pass", "v0.wrapping_add(1)", ptrait, "bare, expression argument")
